@@ -9,6 +9,11 @@
    random deep walks).  Their INPUTS are run on the real control loop
    (harness/c11_netsim.py: real l2_learning + of_01.Connection +
    SoftwareSwitch over OpenFlow bytes) under varying concretisations.
+   Round 6: TLC also searches MUTANT designs (MutLearningNet.tla: one duty of
+   the controller - learn the source / delete the flows of a source that
+   moved - skipped on one decision class of packet-in) for the histories on
+   which they break the property; the inputs of these witness histories are
+   run on the real code as well.
 3. TLC validates every recorded execution against the PROPERTY layer
    (TraceLearningNet.tla): each hop of each frame must satisfy HopOK in the
    state built from the recorded history.  That is the verdict.  Whether the
@@ -27,7 +32,10 @@ from engine import tlc, core, tracecheck
 DRIVER = "harness.adapters_c11:run_behaviour"
 # cases of the design model (NextC in LearningNet.tla); every one must be exercised by the model runs
 CASES = ["ViaFiltered", "ViaFlood", "ViaForward", "ViaSamePort", "ViaFlow", "ViaDropFlow", "ViaOlderFlow",
-         "ViaLink", "Move", "TickExpires", "TickKeeps"]
+         "ViaLink", "Move", "TickExpires", "TickKeeps",
+         # a source that moved announces itself by a frame of each decision class while its flows are cached
+         "MvLldp", "MvFilt", "MvGroup", "MvUnknown", "MvSame", "MvFwd"]
+CLASSES = ["lldp", "filt", "group", "unknown", "same", "fwd"]
 
 AT = {
     "At1_2": [[1, 1], [1, 2]],
@@ -39,9 +47,15 @@ AT = {
     "At3_5": [[1, 1], [1, 2], [2, 1], [3, 1], [3, 2]],
 }
 
-# (cfg, tag, topology, initial attachment, max behaviours kept (None = all))
+# (cfg, tag, topology, initial attachment, max behaviours kept (None = all)[, module, concretisations per
+#  behaviour (or per duty of the mutant), mutants that must each yield a witness])
+MUT = "MutLearningNet"
+DEL = ["delete/" + c for c in CLASSES]
+LRN = ["learn/" + c for c in CLASSES]
 EXPORTS = {
     "quick": [
+        ("MUT_T1r_qa_d8.cfg", "W", "T1", "At1_2", None, MUT, dict(delete=5, learn=1), DEL[:3] + LRN),
+        ("MUT_T1r_qb_d8.cfg", "W", "T1", "At1_2", None, MUT, dict(delete=5, learn=1), DEL[3:]),
         ("EX_paths_T1_d3.cfg", "H", "T1", "At1_2", None),
         ("EX_paths_T1s_d4.cfg", "H", "T1", "At1_same", None),
         ("EX_paths_T1m_d7.cfg", "H", "T1", "At1_2", None),
@@ -50,6 +64,10 @@ EXPORTS = {
         ("EX_edges_T3_d2.cfg", "T", "T3", "At3_5", 500),
     ],
     "thorough": [
+        ("MUT_T1r_delcN_d9.cfg", "W", "T1", "At1_2", None, MUT, 12, DEL),
+        ("MUT_T1r_del_d7.cfg", "W", "T1", "At1_2", None, MUT, 6, DEL),
+        ("MUT_T1r_learn_d5.cfg", "W", "T1", "At1_2", None, MUT, 2, LRN),
+        ("EX_edges_T1r_d6.cfg", "T", "T1", "At1_2", 2500),
         ("EX_paths_T1_d4.cfg", "H", "T1", "At1_2", None),
         ("EX_paths_T1s_d4.cfg", "H", "T1", "At1_same", None),
         ("EX_paths_T1m_d5.cfg", "H", "T1", "At1_2", None),
@@ -74,16 +92,25 @@ SIMS = {
 }
 MODELS = {
     "quick": [("MC_T1_d3.cfg", "T1: 3 hosts, destinations host|unknown|broadcast|filtered, shapes a/l, gaps 11/31, histories <= 4"),
-              ("MC_T1m_d7.cfg", "T1: two hosts in conversation, one moving between two ports, histories <= 8"),
+              ("MC_T1r_d6.cfg", "T1 re-plug family: two hosts, one re-plugged between all three ports, every "
+                                "destination class and LLDP from both, histories <= 7"),
               ("MC_T2_d2.cfg", "T2: 2 switches, 3 hosts, histories <= 3"),
               ("MC_T3_d2.cfg", "T3: 3 switches, 3 hosts, histories <= 3")],
     "thorough": [("MC_T1_d4.cfg", "T1: 3 hosts, all destination classes, shapes a/l, gaps 11/31, histories <= 5"),
                  ("MC_T1same_d4.cfg", "T1: 2 hosts behind one port, shapes a/b/l, histories <= 5"),
                  ("MC_T1m_d7.cfg", "T1: two hosts in conversation, one moving between two ports, histories <= 8"),
+                 ("MC_T1r_d7.cfg", "T1 re-plug family: two hosts, one re-plugged between all three ports, every "
+                                   "destination class and LLDP from both, histories <= 8"),
                  ("MC_T2_d4.cfg", "T2: 2 switches, 3 hosts, histories <= 5"),
                  ("MC_T3_d4.cfg", "T3: 3 switches, 3 hosts, histories <= 5")],
 }
 
+
+
+# cases a model run must exercise by itself (default: ViaFlood, ViaForward, ViaFlow, Move); the union of the
+# tier's runs must exercise all CASES
+_MV = ["ViaOlderFlow", "MvLldp", "MvFilt", "MvGroup", "MvUnknown", "MvSame", "MvFwd", "Move"]
+PER_MODEL = {"MC_T1r_d6.cfg": _MV, "MC_T1r_d7.cfg": _MV}
 
 
 def _narrow(beh):
@@ -98,13 +125,48 @@ AS_BUILT = [("MC_asbuilt.cfg", "drop flow without ingress port (finding 01)"),
             ("MC_asbuilt2.cfg", "no flow deletion when a source shows up on a new port (finding 03)")]
 
 _diag = re.compile(r'^<<"DIAG", (\d+), (\d+), (.*), (\d+), (\d+), (\d+)>>$')
+_want = re.compile(r'^<<"WANT", (\d+), (\d+), (\d+), (.*)>>$')
 
 
-def _par(jobs, n=4):
-  """run thunks concurrently (each is a TLC subprocess), keep order."""
+def _export(e):
+  """EXPORTS entry -> (cfg, tag, topo, at, cap, module, concretisations per behaviour, required mutants)"""
+  return tuple(e[:5]) + (e[5] if len(e) > 5 else "MCLearningNet", e[6] if len(e) > 6 else 1,
+                         e[7] if len(e) > 7 else [])
+
+
+def announce_class(args):
+  """decision-relevant class of a frame, from its inputs (for signatures)"""
+  if args["sh"] == "l":
+    return "lldp"
+  return dst_class(args["dst"])
+
+
+def moved_via(trace, upto, host):
+  """How did `host` announce itself each time it showed up on a new attachment point before event `upto`?
+  (sorted classes of those first frames; [] if it was always seen at one point).  From the inputs only."""
+  at = {}
+  seen_at = {}
+  via = set()
+  for e in trace[:upto]:
+    if e["a"] == "At":
+      for h, sp in enumerate(e["args"]["at"], 1):
+        at[h] = tuple(sp)
+    elif e["a"] == "Move":
+      at[e["args"]["h"]] = (e["args"]["s"], e["args"]["p"])
+    elif e["a"] == "Send" and e["args"]["h"] == host:
+      if host in seen_at and seen_at[host] != at.get(host):
+        via.add(announce_class(e["args"]))
+      seen_at[host] = at.get(host)
+  return sorted(via)
+
+
+def _par(jobs, n=4, first=()):
+  """run thunks concurrently (each is a TLC subprocess), keep order; the jobs whose indexes are listed in
+  `first` are started before the others (long single-threaded runs must not queue behind short ones)."""
+  order = [k for k in first] + [k for k in range(len(jobs)) if k not in first]
   with ThreadPoolExecutor(max_workers=n) as ex:
-    futs = [ex.submit(j) for j in jobs]
-    return [f.result() for f in futs]
+    futs = {k: ex.submit(jobs[k]) for k in order}
+    return [futs[k].result() for k in range(len(jobs))]
 
 
 def dst_class(d):
@@ -135,16 +197,23 @@ def _brief(hops):
   return sorted(out)
 
 
-def _replay_form(steps, trace, matched):
+def _replay_form(steps, trace, matched, want=None):
   """behaviour for `./check C11 --replay`: the inputs up to the rejected
   event; expectation = what was recorded (and accepted) before it, the
-  design model's prediction at it."""
+  design model's prediction at it.  For a witness history of a mutant design
+  (whose `exp` is the MUTANT's prediction) the expectation at the rejected
+  event is the recorded hop with the ports the property layer demands
+  (`want`: {switch: ports}, printed by TLC with the diagnosis)."""
   beh = []
   for j, st in enumerate(steps[:matched]):
     exp = {}
     if st["a"] == "Send":
       if j < matched - 1:
         exp = {"hops": _brief(trace[j + 1]["obs"]["hops"])}
+      elif want is not None:
+        exp = {"hops": sorted([h["s"], h["i"], h["pktin"],
+                               sorted(want[h["s"]]) if want.get(h["s"], [0]) != [0] else sorted(set(h["out"])),
+                               0, 0, 0] for h in trace[j + 1]["obs"]["hops"])}
       else:
         exp = {"hops": sorted([h["s"], h["i"], h["pktin"], sorted(h["out"]), 0, 0, 0]
                               for h in st["exp"]["hops"])}
@@ -167,6 +236,15 @@ def _validate(topo, traces, tag):
         cl = [m.group(3).strip('"')]
       diags.setdefault(t, []).append(dict(event=int(m.group(2)) - 1, clauses=cl, s=int(m.group(4)),
                                           i=int(m.group(5)), pktin=int(m.group(6))))
+      continue
+    m = _want.match(ln)
+    if m:
+      # the ports the property layer demands at a rejected hop ([0] = latitude); joins its DIAG entry
+      t, ev, sw = int(m.group(1)) - 1, int(m.group(2)) - 1, int(m.group(3))
+      for d in diags.get(t, []):
+        if d["event"] == ev and d["s"] == sw and "want" not in d:
+          d["want"] = json.loads(json.loads(m.group(4)))
+          break
   return r, dict(rej), diags
 
 
@@ -209,7 +287,9 @@ def run(ctx):
   rnd = random.Random(ctx.seed * 7919 + 11)
   ctx.rule = ("inputs of behaviours exported by TLC from the design layer of LearningNet.tla (all paths to "
               "depth 3-4 over small alphabets; one behaviour per transition of the depth-bounded state graph "
-              "over large alphabets; -simulate walks of length 60/200) are executed on real l2_learning + "
+              "over large alphabets; -simulate walks of length 60/200; witness histories on which TLC finds "
+              "that a mutant design - one controller duty (learn / delete the flows of a moved source) skipped "
+              "on one decision class of packet-in - breaks the property) are executed on real l2_learning + "
               "of_01.Connection + SoftwareSwitch connected by OpenFlow bytes; every recorded execution is "
               "validated by TLC against the property layer (TraceLearningNet.tla: each hop of each frame "
               "must satisfy HopOK in the state built from the recorded history). distinct = distinct "
@@ -230,7 +310,10 @@ def run(ctx):
   nocov = {"MC_T1_d3.cfg"} if quick else set()
 
   def mc(cfg):
-    return lambda: tlc.run("learning", "MCLearningNet", cfg, tag="C11", workers=2 if quick else 4,
+    # (the re-plug family's run carries the Mv* cases, i.e. TLC's coverage bookkeeping: more workers keep it
+    #  off the critical path)
+    return lambda: tlc.run("learning", "MCLearningNet", cfg, tag="C11",
+                           workers=4 if not quick or cfg in PER_MODEL else 2,
                            coverage=cfg not in nocov, timeout=1700)
   sims = SIMS[tier]
 
@@ -240,19 +323,22 @@ def run(ctx):
                            timeout=1700)
   exports = EXPORTS[tier]
 
-  def ex(cfg):
-    return lambda: tlc.run("learning", "MCLearningNet", cfg, workers=1, coverage=False, tag="C11",
+  exports = [_export(e) for e in exports]
+
+  def ex(cfg, module):
+    return lambda: tlc.run("learning", module, cfg, workers=1, coverage=False, tag="C11",
                            timeout=1700)
   jobs = [mc(c) for c, _ in MODELS[tier]] + \
          [sim(c, n, d, k) for k, (c, _, _, n, d) in enumerate(sims)] + \
-         [ex(c) for c, _, _, _, _ in exports]
+         [ex(e[0], e[5]) for e in exports]
   def asb(cfg):
     return lambda: tlc.run("learning", "MCLearningNet", cfg, tag="C11", workers=2, coverage=False,
                            expect_violation=True)
   nab = 0 if quick else len(AS_BUILT)
   jobs += [asb(c) for c, _ in AS_BUILT[:nab]]
   t0 = time.time()
-  res = _par(jobs, n=8)
+  nmc = len(MODELS[tier])
+  res = _par(jobs, n=9, first=list(range(nmc)) + [nmc + len(sims) + k for k, e in enumerate(exports) if e[1] == "W"])
   phases = dict(tlc_model_and_export_s=round(time.time() - t0, 1))
   nm, ns_ = len(MODELS[tier]), len(sims)
   merged = tlc.TLCResult()
@@ -263,7 +349,7 @@ def run(ctx):
       if r.generated < 1000:
         raise tlc.TLCError("model run %s explored only %d transitions" % (cfg, r.generated))
     else:
-      tlc.require_coverage(r, ["ViaFlood", "ViaForward", "ViaFlow", "Move"], cfg)
+      tlc.require_coverage(r, PER_MODEL.get(cfg, ["ViaFlood", "ViaForward", "ViaFlow", "Move"]), cfg)
     for k, (a, b) in r.coverage.items():
       old = merged.coverage.get(k, (0, 0))
       merged.coverage[k] = (old[0] + a, old[1] + b)
@@ -287,18 +373,38 @@ def run(ctx):
   # ---- 2. behaviours -> inputs for the real code
   items = []
   per_export = {}
-  for (cfg, tag, topo, at, cap), r in zip(exports, res[nm + ns_:]):
+  mutant_models = {}
+  for (cfg, tag, topo, at, cap, module, reps, need), r in zip(exports, res[nm + ns_:]):
     behs = r.tagged(tag)
     if cfg in FILTERS:
       behs = [b for b in behs if FILTERS[cfg](b)]
     if not behs:
       raise tlc.TLCError("no behaviours exported by %s" % cfg)
+    muts = None
+    if tag == "W":
+      # witness histories of mutant designs: each mutant must break the property somewhere in the bounded
+      # family (a mutant without a witness = a dimension of the spec that the run does not exercise)
+      muts = ["%s/%s" % (w["mut"]["duty"], w["mut"]["cls"]) for w in behs]
+      missing = [m for m in need if m not in muts]
+      if missing:
+        raise tlc.TLCError("vacuous mutant run %s: TLC found no history on which the mutant design(s) %s "
+                           "violate Conforms" % (cfg, missing))
+      behs = [w["hist"] for w in behs]
+      mutant_models[cfg] = {m: muts.count(m) for m in sorted(set(muts))}
+      ctx.add_model("MutLearningNet: histories of the mutant designs %s that break Conforms (%d witnesses)"
+                    % (",".join(sorted(set(muts))), len(behs)), r, config=cfg)
     total = len(behs)
-    if cap is not None and len(behs) > cap:
-      behs = rnd.sample(behs, cap)
-    per_export[cfg] = dict(exported=total, used=len(behs))
-    for b in behs:
-      items.append(dict(topo=topo, at=AT[at], steps=_norm_steps(b), src=cfg))
+    pick = list(range(total))
+    if cap is not None and total > cap:
+      pick = sorted(rnd.sample(pick, cap))
+    per_export[cfg] = dict(exported=total, used=len(pick), concretisations_each=reps)
+    for j in pick:
+      n = reps if not isinstance(reps, dict) else reps[muts[j].split("/")[0]]
+      for c in range(n):
+        it = dict(topo=topo, at=AT[at], steps=_norm_steps(behs[j]), src=cfg)
+        if muts is not None:
+          it["mutant"] = muts[j]
+        items.append(it)
   for (cfg, topo, at, num, depth), r in zip(sims, res[nm:nm + ns_]):
     behs = r.tagged("H")
     if len(behs) < num // 2:
@@ -310,14 +416,20 @@ def run(ctx):
   for k, it in enumerate(items):
     it["variant"] = (k * 7 + ctx.seed) % nvar
   ctx.notes["exports"] = per_export
+  ctx.notes["mutant_witnesses"] = dict(
+      per_config=mutant_models,
+      note="TLC: number of (state, step) pairs of each mutant design (duty/decision class skipped) at which "
+           "Conforms breaks within the bounded family; the histories leading there are executed on the real "
+           "code and judged by the property layer (the mutants take no part in the verdict)")
 
   # ---- 3. run them on the real control loop
   t0 = time.time()
   out = core.run_driver(DRIVER, items, chunk=max(1, min(100, len(items) // 64 or 1)))
   phases["real_code_s"] = round(time.time() - t0, 1)
-  agree = sum(1 for o in out if o["agree"])
+  plain = [o for it, o in zip(items, out) if "mutant" not in it]
+  agree = sum(1 for o in plain if o["agree"])
   ctx.notes["design_agreement"] = dict(
-      behaviours=len(out), identical_to_design_model=agree,
+      behaviours=len(plain), identical_to_design_model=agree,
       note="informational: executions whose every hop (packet-in or not, ports) and table equals what the "
            "design layer predicts; the verdict below does not depend on it")
 
@@ -338,12 +450,16 @@ def run(ctx):
     if topo in negs:
       continue
     lst = []
+    # (executions of ordinary exported behaviours first: a witness history is where a broken tree misbehaves,
+    #  and corrupting a wrong observation may make it right)
+    cands = sorted(range(len(part)), key=lambda t: ("mutant" in items[part[t]], t))
     for kind in NEG_KINDS:
-      for k in part:
+      for t in cands:
+        k = part[t]
         if all(e["wf"] for e in out[k]["trace"]):
           bad = _corrupt(out[k]["trace"], kind)
           if bad is not None:
-            lst.append((kind, bad))
+            lst.append((kind, bad, t))
             break
     negs[topo] = lst
   first = set()
@@ -351,7 +467,7 @@ def run(ctx):
     extra = []
     if topo not in first:
       first.add(topo)
-      extra = [t for _, t in negs[topo]]
+      extra = [t for _, t, _ in negs[topo]]
     vjobs.append((topo, part, extra))
 
   def vjob(topo, part, extra):
@@ -361,12 +477,16 @@ def run(ctx):
   phases["tlc_trace_validation_s"] = round(time.time() - t0, 1)
   ctx.notes["phases"] = phases
   nrej = 0
+  rej_src = {}
   negok = {}
   for (topo, part, extra), (r, rej, diags) in zip(vjobs, vres):
     ctx.add_model("TraceLearningNet %s (validation of %d implementation executions)" % (topo, len(part)), r,
                   config="Trace_%s.cfg" % topo)
-    for j, (kind, _) in enumerate(negs[topo] if extra else []):
+    for j, (kind, _, base) in enumerate(negs[topo] if extra else []):
       t = len(part) + j
+      if base in rej:
+        # the execution it was made from is itself rejected (broken tree): not a control, and a verdict anyway
+        continue
       if t not in rej:
         raise tlc.TLCError("negative control '%s' (%s) was accepted by the trace specification" % (kind, topo))
       negok.setdefault(topo, []).append(kind)
@@ -376,6 +496,7 @@ def run(ctx):
       nrej += 1
       k = part[t]
       it, o = items[k], out[k]
+      rej_src[it["src"]] = rej_src.get(it["src"], 0) + 1
       ev = o["trace"][matched]
       dg = [d for d in diags.get(t, []) if d["event"] == matched]
       sig = dict(action=ev["a"], via="trace")
@@ -389,10 +510,17 @@ def run(ctx):
         sig["dst"] = dst_class(ev["args"]["dst"])
         sig["frame"] = "lldp" if ev["args"]["sh"] == "l" else "data"
         sig["decided_by"] = sorted(set("controller" if d["pktin"] else "cached-flow" for d in dg)) or ["?"]
+        if sig["dst"] == "host":
+          # the classes of frame by which the destination announced itself when it appeared on a new port
+          sig["dst_moves_announced_by"] = moved_via(o["trace"], matched, ev["args"]["dst"])
+      want = None
+      if "mutant" in it and ev["a"] == "Send" and ev["wf"] and any("want" in d for d in dg):
+        want = {d["s"]: d["want"] for d in dg if "want" in d}
       ctx.report(sig, dict(adapter="harness.adapters_c11:ReplayAdapter",
                            params=dict(topo=it["topo"], variant=it["variant"], at=it["at"]),
-                           behaviour=_replay_form(it["steps"], o["trace"], matched),
+                           behaviour=_replay_form(it["steps"], o["trace"], matched, want),
                            failing_step=matched - 1, world=o["world"], source=it["src"],
+                           witness_of_mutant=it.get("mutant"),
                            rejected_event=ev, diagnosis=dg,
                            recorded_execution=o["trace"][:matched + 1],
                            note="TLC rejected the recorded execution at this event: the hop(s) listed in "
@@ -411,6 +539,7 @@ def run(ctx):
              nontrivial=sends > 0,
              sample=dict(world=o["world"], execution=o["trace"][:4]) if len(it["steps"]) <= 4 else None)
   ctx.notes["trace_validation"] = dict(executions=len(items), frames_sent=nsend, rejected=nrej,
+                                       rejected_by_source=rej_src,
                                        negative_controls_rejected=negok,
                                        concretisation_variants=nvar)
   ctx.exhaustive = True
